@@ -367,6 +367,9 @@ func (r *Rng) fill(v reflect.Value, o *ValOpts, depth int) {
 		if depth > 3 && n > 2 {
 			n = 2
 		}
+		if t.Key().Kind() == reflect.Ptr && n > 1 {
+			n = 1 // distinct pointers with equal text would be duplicate keys
+		}
 		m := reflect.MakeMapWithSize(t, n)
 		prefix := ""
 		if r.Chance(1, 3) {
@@ -376,7 +379,13 @@ func (r *Rng) fill(v reflect.Value, o *ValOpts, depth int) {
 			k := reflect.New(t.Key()).Elem()
 			r.fill(k, o, depth+1)
 			if k.Kind() == reflect.String && k.Type() != tNumber {
-				k.SetString(prefix + k.String())
+				ks := prefix + k.String()
+				if n > 1 {
+					// distinct invalid keys would encode to the same U+FFFD text: duplicate
+					// keys, whose relative order no encoder defines
+					ks = strings.ToValidUTF8(ks, "?")
+				}
+				k.SetString(ks)
 				if o.NoEmptyKeys && k.String() == "" {
 					k.SetString("k")
 				}
